@@ -26,6 +26,7 @@ type WebsocketTransport struct {
 	decoder *xml.Decoder
 	wsConn  *websocket.Conn
 	queue   chan []byte
+	pending []byte // rest of a frame that did not fit into the buffer of the previous Read
 	logFile io.Writer
 
 	closeCtx  context.Context
@@ -133,6 +134,11 @@ func (t WebsocketTransport) Ping() error {
 }
 
 func (t *WebsocketTransport) Read(p []byte) (int, error) {
+	if len(t.pending) > 0 {
+		n := copy(p, t.pending)
+		t.pending = t.pending[n:]
+		return n, nil
+	}
 	select {
 	case <-t.closeCtx.Done():
 		return 0, t.closeCtx.Err()
@@ -140,8 +146,9 @@ func (t *WebsocketTransport) Read(p []byte) (int, error) {
 		if t.logFile != nil && len(data) > 0 {
 			_, _ = fmt.Fprintf(t.logFile, "RECV:\n%s\n\n", data)
 		}
-		copy(p, data)
-		return len(data), nil
+		n := copy(p, data)
+		t.pending = data[n:]
+		return n, nil
 	}
 }
 
